@@ -24,7 +24,7 @@ def gen(rng, i):
         subs.append({"S": rng.choice([0, 0, 10]), "script": rng.choice([["V"], ["E", "V"], ["E", "E", "E"], ["E", "F"]]),
                      "dur": dur, "thread": j % rng.choice([1, 2]), "K": ks, "cb": rng.random() < 0.3})
     return {"base": rng.choice(["pool", "pool", "sync"]), "workers": rng.choice([1, 1, 2]), "layers": layers, "subs": subs,
-            "horizon": 5000}
+            "horizon": 40000}
 
 
 def run(ck):
